@@ -1,8 +1,359 @@
 import Fabio.Model.C13
+import Fabio.Lemmas.C13
 /-!
 C13 — redirect routes answer from the request alone: property theorems.
+
+The model (`Model/C13.lean`) follows the repaired tree (D08, D17, D18, D27). Statements the code cannot
+satisfy in full generality carry their extra hypothesis explicitly (`plain` prefix/prepend, strip applying
+literally to both the decoded and the raw path): the excluded input classes are the recorded findings
+D17b/D17c/D17d of `checks/C13.findings.json`, each replayed from the corpus.
 -/
 namespace Fabio.Props.C13
-open Fabio Fabio.Model.C13
+open Fabio Fabio.Model.C13 Fabio.Lemmas.C13
+
+/-! ### status code -/
+
+/-- Whatever the `redirect=` option says, the target's code is 0 or a 3xx code. -/
+theorem redirect_code_3xx_only (opt : Str) :
+    redirectCode opt = 0 ∨ (300 ≤ redirectCode opt ∧ redirectCode opt ≤ 399) := by
+  unfold redirectCode
+  split
+  · exact Or.inl rfl
+  · simp only []
+    split
+    · exact Or.inl rfl
+    · split
+      · exact Or.inl rfl
+      · rename_i h
+        simp only [Bool.or_eq_true, decide_eq_true_eq, not_or, Int.not_lt] at h
+        right; omega
+
+/-- …and a target with code 0 is not answered with a redirect: it is handed to the proxy as it is. -/
+theorem code_zero_is_not_a_redirect (scheme : Str) (req : URL) (t : RTarget) (rest : List (Option RTarget))
+    (last : Option (RTarget × Option URL)) (h : t.code = 0) :
+    lookupLoop scheme req (some t :: rest) last = some (t, none) := by
+  simp [lookupLoop, h]
+
+example : redirectCode (lit "301") = 301 := by decide
+example : redirectCode (lit "200") = 0 := by decide
+example : redirectCode (lit "abc") = 0 := by decide
+/-- D27: a value `Atoi` rejects with a range error (it returns MaxInt64 then) yields 0, not MaxInt64. -/
+example : redirectCode (lit "99999999999999999999") = 0 := by decide
+example : (atoi (lit "99999999999999999999")).1 = maxInt := by decide
+
+/-! ### `$host` -/
+
+/-- The host of the redirect URL is the template's host (without a `$path` suffix) in which the first
+`$host` is replaced by the request's `Host`. -/
+theorem host_substituted (t : RTarget) (req : URL) :
+    (buildRedirectURL t req).host =
+      if contains vHost (stage2 (stage1 t)).host then replace1 vHost req.host (stage2 (stage1 t)).host
+      else (stage2 (stage1 t)).host := by
+  have e3 : ∀ u, (stage3 u).host = u.host := by intro u; unfold stage3; split <;> rfl
+  have e4 : ∀ u, (stage4 t req u).host = u.host := by
+    intro u; unfold stage4; split
+    · simp only []; split <;> rfl
+    · rfl
+  have e5 : ∀ u, (stage5 u).host = u.host := by intro u; unfold stage5; split <;> rfl
+  simp only [buildRedirectURL, stage6, e5, e4, e3]
+  split <;> simp_all
+
+/-! ### query -/
+
+/-- For a `$path` template (after the normalisation steps the path still holds `$path`): the request's
+query is carried when the template has none, the template's own query wins otherwise. -/
+theorem query_carried_when_target_has_none (t : RTarget) (req : URL)
+    (hp : contains vPath (stage3 (stage2 (stage1 t))).path = true) :
+    (buildRedirectURL t req).rawQuery = if t.url.rawQuery = [] then req.rawQuery else t.url.rawQuery := by
+  have e2 : ∀ u, (stage2 u).rawQuery = u.rawQuery := by intro u; unfold stage2; split <;> rfl
+  have e3 : ∀ u, (stage3 u).rawQuery = u.rawQuery := by intro u; unfold stage3; split <;> rfl
+  have e5 : ∀ u, (stage5 u).rawQuery = u.rawQuery := by intro u; unfold stage5; split <;> rfl
+  have e6 : ∀ u, (stage6 req u).rawQuery = u.rawQuery := by intro u; unfold stage6; split <;> rfl
+  have q0 : (stage3 (stage2 (stage1 t))).rawQuery = t.url.rawQuery := by rw [e3, e2]; rfl
+  simp only [buildRedirectURL, e6, e5]
+  unfold stage4
+  rw [if_pos hp]
+  by_cases hq : t.url.rawQuery = []
+  · by_cases hr : req.rawQuery = [] <;> simp [hq, hr, q0]
+  · have : t.url.rawQuery.isEmpty = false := by cases h : t.url.rawQuery <;> simp_all
+    simp [hq, this, q0]
+
+/-- A fixed-URL redirect (no `$path`) keeps the template's own query — as coded; the request's query is
+not carried there. -/
+theorem fixed_template_keeps_its_query (t : RTarget) (req : URL)
+    (hp : contains vPath (stage3 (stage2 (stage1 t))).path = false) :
+    (buildRedirectURL t req).rawQuery = t.url.rawQuery := by
+  have e2 : ∀ u, (stage2 u).rawQuery = u.rawQuery := by intro u; unfold stage2; split <;> rfl
+  have e3 : ∀ u, (stage3 u).rawQuery = u.rawQuery := by intro u; unfold stage3; split <;> rfl
+  have e5 : ∀ u, (stage5 u).rawQuery = u.rawQuery := by intro u; unfold stage5; split <;> rfl
+  have e6 : ∀ u, (stage6 req u).rawQuery = u.rawQuery := by intro u; unfold stage6; split <;> rfl
+  simp only [buildRedirectURL, e6, e5]
+  unfold stage4
+  rw [if_neg (by simp [hp]), e3, e2]
+  rfl
+
+example : (buildRedirectURL { url := { scheme := lit "https", host := lit "bar.com", path := lit "/$path" }, code := 301 }
+    { host := lit "foo.com", path := lit "/abc/", rawQuery := lit "aaa=1" }).rawQuery = lit "aaa=1" := by decide
+example : urlString (buildRedirectURL { url := { scheme := lit "http", host := lit "bar.com", path := lit "/a/b/c", rawQuery := lit "foo=bar" }, code := 301 }
+    { host := lit "foo.com", path := lit "/", rawQuery := lit "aaa=1" }) = lit "http://bar.com/a/b/c?foo=bar" := by decide
+example : (buildRedirectURL { url := { scheme := lit "https", host := lit "$host", path := lit "/$path" }, code := 301 }
+    { host := lit "foo.com:8080", path := lit "/" }).host = lit "foo.com:8080" := by decide
+
+/-! ### `$path`: the Location path -/
+
+
+theorem stripPrefix_append (s x : Str) : stripPrefix (s ++ x) s = x := by
+  simp [stripPrefix, hasPrefix, isPrefixOf_self_append]
+
+theorem replacement_eq (t : RTarget) (req : URL) (r' p' : Str)
+    (hraw : req.rawPath = t.strip ++ r') (hpath : req.path = t.strip ++ p') (hne : req.rawPath ≠ []) :
+    replacement t req = (t.prepend ++ p', t.prepend ++ r') := by
+  have he : req.rawPath.isEmpty = false := by cases h : req.rawPath <;> simp_all
+  unfold replacement
+  simp only [he]
+  by_cases hs : t.strip = []
+  · simp only [hs, List.nil_append] at hraw hpath
+    by_cases hp : t.prepend = [] <;> simp [hs, hp, hraw, hpath]
+  · by_cases hp : t.prepend = [] <;> simp [hs, hp, hraw, hpath, stripPrefix_append]
+
+/-- core: once the template is normalised to `prefix ++ "$path"` -/
+theorem escapedPath_core (t : RTarget) (req : URL) (u3 : URL) (pfx r' p' : Str)
+    (h3p : u3.path = pfx ++ vPath) (h3r : u3.rawPath = pfx ++ vPath) (hd : ∀ c ∈ pfx, c ≠ 36)
+    (hplain : plain pfx = true) (hpre : plain t.prepend = true)
+    (hraw : req.rawPath = t.strip ++ r') (hpath : req.path = t.strip ++ p') (hne : req.rawPath ≠ [])
+    (hv : validEncoded r' = true) (hu : unescape r' = some p') (hr : r' ≠ []) :
+    escapedPath (stage6 req (stage5 (stage4 t req u3))) = pfx ++ (t.prepend ++ r') := by
+  have hc : contains vPath u3.path = true := by
+    rw [h3p]; have := contains_vPath_append pfx []; simpa using this
+  have e4p : (stage4 t req u3).path = pfx ++ (t.prepend ++ p') := by
+    unfold stage4; rw [if_pos hc, replacement_eq t req r' p' hraw hpath hne]
+    simp only []
+    have := replace1_vPath_append pfx (t.prepend ++ p') [] hd
+    simp only [List.append_nil] at this
+    split <;> simp [h3p, this]
+  have e4r : (stage4 t req u3).rawPath = pfx ++ (t.prepend ++ r') := by
+    unfold stage4; rw [if_pos hc, replacement_eq t req r' p' hraw hpath hne]
+    simp only []
+    have := replace1_vPath_append pfx (t.prepend ++ r') [] hd
+    simp only [List.append_nil] at this
+    split <;> simp [h3r, this]
+  have hp'ne : pfx ++ (t.prepend ++ p') ≠ [] := by
+    intro h
+    simp only [List.append_eq_nil_iff] at h
+    obtain ⟨_, _, hp'⟩ := h
+    subst hp'
+    cases r' with
+    | nil => exact hr rfl
+    | cons c cs =>
+      -- unescape of a non-empty string is never the empty string
+      rw [unescape.eq_def] at hu
+      split at hu <;> simp_all
+      all_goals (cases h : unescape _ <;> simp_all)
+  have e5p : (stage5 (stage4 t req u3)).path = pfx ++ (t.prepend ++ p') := by
+    have : (stage4 t req u3).path.isEmpty = false := by rw [e4p]; cases h : pfx ++ (t.prepend ++ p') <;> simp_all
+    unfold stage5
+    rw [this]
+    exact e4p
+  have e5r : (stage5 (stage4 t req u3)).rawPath = pfx ++ (t.prepend ++ r') := by
+    unfold stage5; split <;> simp [e4r]
+  have e6p : (stage6 req (stage5 (stage4 t req u3))).path = pfx ++ (t.prepend ++ p') := by
+    unfold stage6; split <;> simp [e5p]
+  have e6r : (stage6 req (stage5 (stage4 t req u3))).rawPath = pfx ++ (t.prepend ++ r') := by
+    unfold stage6; split <;> simp [e5r]
+  have hval : validEncoded (pfx ++ (t.prepend ++ r')) = true := by
+    simp [validEncoded_append, validEncoded_plain _ hplain, validEncoded_plain _ hpre, hv]
+  have hun : unescape (pfx ++ (t.prepend ++ r')) = some (pfx ++ (t.prepend ++ p')) := by
+    rw [unescape_plain_append _ _ hplain, unescape_plain_append _ _ hpre, hu]; rfl
+  have hne' : pfx ++ (t.prepend ++ r') ≠ [] := by
+    intro h; simp only [List.append_eq_nil_iff] at h; exact hr h.2.2
+  unfold escapedPath
+  rw [e6p, e6r]
+  simp [hne', hval, hun]
+
+/-! ### the three spellings normalise to `prefix ++ "$path"` -/
+
+theorem norm_hostPath (t : RTarget) (h : Str) (hh : t.url.host = h ++ vPath) :
+    (stage3 (stage2 (stage1 t))).path = [] ++ vPath ∧ (stage3 (stage2 (stage1 t))).rawPath = [] ++ vPath := by
+  have hs : hasSuffix (stage1 t).host vPath = true := by
+    simp [stage1, hh, hasSuffix]
+  have e : contains vSlashPath vPath = false := by decide
+  unfold stage2; rw [if_pos hs]
+  unfold stage3; simp [e]
+
+theorem norm_slashPath (t : RTarget) (pfx : Str) (hh : hasSuffix t.url.host vPath = false)
+    (hp : t.url.path = pfx ++ vSlashPath) (hd : ∀ c ∈ pfx, c ≠ 36) :
+    (stage3 (stage2 (stage1 t))).path = pfx ++ vPath ∧ (stage3 (stage2 (stage1 t))).rawPath = pfx ++ vPath := by
+  have e2 : stage2 (stage1 t) = stage1 t := by unfold stage2; simp [stage1, hh]
+  have hc : contains vSlashPath (stage1 t).path = true := by
+    have := contains_vSlashPath_append pfx []; simpa [stage1, hp] using this
+  have hr := replace1_vSlashPath_append pfx [] hd
+  simp only [List.append_nil] at hr
+  rw [e2]; unfold stage3; rw [if_pos hc]
+  simp [stage1, hp, hr]
+
+theorem norm_barePath (t : RTarget) (pfx : Str) (hh : hasSuffix t.url.host vPath = false)
+    (hp : t.url.path = pfx ++ vPath) (hd : ∀ c ∈ pfx, c ≠ 36) (hl : pfx.getLast? ≠ some 47) :
+    (stage3 (stage2 (stage1 t))).path = pfx ++ vPath ∧ (stage3 (stage2 (stage1 t))).rawPath = pfx ++ vPath := by
+  have e2 : stage2 (stage1 t) = stage1 t := by unfold stage2; simp [stage1, hh]
+  have hc : contains vSlashPath (stage1 t).path = false := by
+    simpa [stage1, hp] using not_contains_vSlashPath pfx hd hl
+  rw [e2]; unfold stage3; rw [if_neg (by simp [hc])]
+  simp [stage1, hp]
+
+/-- **The Location path is the request's path, in the request's own encoding.**
+For each of the three spellings — `host$path`, `…prefix/$path`, `…prefix$path` — of a template whose
+prefix is plain (no byte that needs escaping, no `$`), with a plain `prepend`, and a request whose raw path
+`strip ++ r'` is a valid encoding of its decoded path `strip ++ p'` (`strip` empty or applying literally to
+both): the bytes that go into `Location` are exactly `prefix ++ prepend ++ r'` — the client's percent-encoding
+(`%2F`, `%3F`, `%25`, lower-case hex …) is kept byte for byte.
+
+Full statement without the plainness / literal-strip hypotheses is false on the code as it is: findings
+D17b (template prefix encoded), D17c (prefix/prepend needing escaping), D17d (strip matching only one of
+the two paths); before the repair of D17 it was false for every `host$path` template
+(`https://$host$path`, `/a%2Fb` ↦ `/a/b`). -/
+theorem location_path_is_request_path (t : RTarget) (req : URL) (pfx r' p' : Str)
+    (spelling :
+      (∃ h, t.url.host = h ++ vPath ∧ pfx = []) ∨
+      (hasSuffix t.url.host vPath = false ∧ t.url.path = pfx ++ vSlashPath) ∨
+      (hasSuffix t.url.host vPath = false ∧ t.url.path = pfx ++ vPath ∧ pfx.getLast? ≠ some 47))
+    (hd : ∀ c ∈ pfx, c ≠ 36) (hplain : plain pfx = true) (hpre : plain t.prepend = true)
+    (hraw : req.rawPath = t.strip ++ r') (hpath : req.path = t.strip ++ p') (hne : req.rawPath ≠ [])
+    (hv : validEncoded r' = true) (hu : unescape r' = some p') (hr : r' ≠ []) :
+    escapedPath (buildRedirectURL t req) = pfx ++ (t.prepend ++ r') := by
+  have hn : (stage3 (stage2 (stage1 t))).path = pfx ++ vPath ∧ (stage3 (stage2 (stage1 t))).rawPath = pfx ++ vPath := by
+    rcases spelling with ⟨h, hh, rfl⟩ | ⟨hh, hp⟩ | ⟨hh, hp, hl⟩
+    · exact norm_hostPath t h hh
+    · exact norm_slashPath t pfx hh hp hd
+    · exact norm_barePath t pfx hh hp hd hl
+  exact escapedPath_core t req _ pfx r' p' hn.1 hn.2 hd hplain hpre hraw hpath hne hv hu hr
+
+/-- D17's witness, now repaired: `https://$host$path`, request `/a%2Fb` keeps `%2F`. -/
+example : location { url := { scheme := lit "https", host := lit "$host$path" }, code := 301 }
+    { host := lit "x.com", path := lit "/a/b", rawPath := lit "/a%2Fb", rawQuery := lit "q=1" }
+    = lit "https://x.com/a%2Fb?q=1" := by decide
+/-- all three spellings, strip and prepend, on one request -/
+example : location { url := { scheme := lit "https", host := lit "bar.com", path := lit "/bbb/$path" }, strip := lit "/s", prepend := lit "/p", code := 302 }
+    { host := lit "x.com", path := lit "/s/a/b c", rawPath := lit "/s/a%2Fb%20c" } = lit "https://bar.com/bbb/p/a%2Fb%20c" := by decide
+example : location { url := { scheme := lit "https", host := lit "bar.com", path := lit "/bbb$path" }, code := 302 }
+    { host := lit "x.com", path := lit "/a?b", rawPath := lit "/a%3fb" } = lit "https://bar.com/bbb/a%3fb" := by decide
+/-- the recorded finding D17c on the model: a prepend that needs escaping makes `net/url` re-encode, `%2F` is lost -/
+example : location { url := { scheme := lit "https", host := lit "bar.com", path := lit "/$path" }, prepend := lit "/a b", code := 301 }
+    { host := lit "x.com", path := lit "/x/y", rawPath := lit "/x%2Fy" } = lit "https://bar.com/a%20b/x/y" := by decide
+/-- an empty resulting path is sent as `/` -/
+example : location { url := { scheme := lit "https", host := lit "bar.com$path" }, strip := lit "/foo", code := 301 }
+    { host := lit "x.com", path := lit "/foo" } = lit "https://bar.com/" := by decide
+
+/-! ### self-redirect skip -/
+
+/-- A redirect whose URL has the request's own scheme, host and path is skipped: the loop goes on to the
+next matching host (and remembers the skipped target only for the case that it was the last host). -/
+theorem self_redirect_skipped (scheme : Str) (req : URL) (t : RTarget) (rest : List (Option RTarget))
+    (last : Option (RTarget × Option URL)) (hc : t.code ≠ 0)
+    (hs : selfRedirect (buildRedirectURL t req) scheme req = true) :
+    lookupLoop scheme req (some t :: rest) last = lookupLoop scheme req rest (some (t, some (buildRedirectURL t req))) := by
+  simp [lookupLoop, hc, hs]
+
+/-- …in favour of the next matching host: hosts without a matching route are passed over, and the first
+plain target found is the one the request is proxied to. -/
+theorem self_redirect_next_host_wins (scheme : Str) (req : URL) (t t2 : RTarget) (n : Nat) (rest : List (Option RTarget))
+    (hc : t.code ≠ 0) (hs : selfRedirect (buildRedirectURL t req) scheme req = true) (h2 : t2.code = 0) :
+    lookup scheme req (some t :: (List.replicate n none ++ some t2 :: rest)) = some (t2, none) := by
+  unfold lookup
+  rw [self_redirect_skipped scheme req t _ _ hc hs]
+  generalize (some (t, some (buildRedirectURL t req))) = l
+  induction n generalizing l with
+  | zero => simp [lookupLoop, h2]
+  | succ k ih => simp only [List.replicate_succ, List.cons_append, lookupLoop]; exact ih none
+
+/-- a redirect that does not point back at the request is answered at once -/
+theorem other_redirect_answered (scheme : Str) (req : URL) (t : RTarget) (rest : List (Option RTarget))
+    (last : Option (RTarget × Option URL)) (hc : t.code ≠ 0)
+    (hs : selfRedirect (buildRedirectURL t req) scheme req = false) :
+    lookupLoop scheme req (some t :: rest) last = some (t, some (buildRedirectURL t req)) := by
+  simp [lookupLoop, hc, hs]
+
+/-- The request's own scheme: `X-Forwarded-Proto` when present, else the connection (D18 repaired). -/
+theorem request_scheme (xfp : Str) (tls : Bool) :
+    reqScheme xfp tls = if xfp ≠ [] then xfp else if tls then lit "https" else lit "http" := rfl
+
+/-- D18's witness: `route add svc example.com/ https://example.com/ opts "redirect=301"` and a fallback
+route; an HTTPS request *without* `X-Forwarded-Proto` is handed to the fallback instead of being
+redirected to itself. -/
+example :
+    let t : RTarget := { url := { scheme := lit "https", host := lit "example.com", path := lit "/" }, code := 301 }
+    let up : RTarget := { url := { scheme := lit "http", host := lit "127.0.0.1:3000", path := lit "/" } }
+    let req : URL := { host := lit "example.com", path := lit "/" }
+    answer (reqScheme [] true) req [some t, some up] = none ∧
+    lookup (reqScheme [] true) req [some t, some up] = some (up, none) ∧
+    -- over plain HTTP the same route redirects
+    answer (reqScheme [] false) req [some t, some up] = some (301, lit "https://example.com/") := by decide
+
+/-! ### the answer depends on the request alone, under every interleaving -/
+
+inductive Step where
+  | lookup (i : Nat)   -- request i runs `Table.Lookup`
+  | serve (i : Nat)    -- request i reaches the redirect branch of `ServeHTTP`
+deriving DecidableEq, Repr
+
+/-- The repaired code: `Lookup` builds the URL on a copy of the target that belongs to the request
+(`locals`), `ServeHTTP` reads that copy; the shared target `t` is only read. -/
+def runPerRequest (t : RTarget) (reqs : Nat → URL) : List Step → List (Nat × URL) → List (Nat × Str) → List (Nat × Str)
+  | [], _, out => out
+  | .lookup i :: s, locals, out => runPerRequest t reqs s ((i, buildRedirectURL t (reqs i)) :: locals) out
+  | .serve i :: s, locals, out =>
+      match locals.lookup i with
+      | some u => runPerRequest t reqs s locals (out ++ [(i, hexEscapeNonASCII (urlString u))])
+      | none => runPerRequest t reqs s locals out
+
+/-- The code before the repair of D08: one cell on the shared target, written by every lookup. -/
+def runSharedCell (t : RTarget) (reqs : Nat → URL) : List Step → Option URL → List (Nat × Str) → List (Nat × Str)
+  | [], _, out => out
+  | .lookup i :: s, _, out => runSharedCell t reqs s (some (buildRedirectURL t (reqs i))) out
+  | .serve i :: s, cell, out =>
+      match cell with
+      | some u => runSharedCell t reqs s cell (out ++ [(i, hexEscapeNonASCII (urlString u))])
+      | none => runSharedCell t reqs s cell out
+
+theorem runPerRequest_inv (t : RTarget) (reqs : Nat → URL) (s : List Step) (locals : List (Nat × URL)) (out : List (Nat × Str))
+    (hl : ∀ i u, locals.lookup i = some u → u = buildRedirectURL t (reqs i))
+    (ho : ∀ p ∈ out, p.2 = location t (reqs p.1)) :
+    ∀ p ∈ runPerRequest t reqs s locals out, p.2 = location t (reqs p.1) := by
+  induction s generalizing locals out with
+  | nil => simpa [runPerRequest] using ho
+  | cons st s ih =>
+    cases st with
+    | lookup i =>
+      simp only [runPerRequest]
+      apply ih _ _ _ ho
+      intro j u hj
+      simp only [List.lookup_cons] at hj
+      split at hj
+      · rename_i heq; simp only [beq_iff_eq] at heq; cases hj; rw [heq]
+      · exact hl j u hj
+    | serve i =>
+      simp only [runPerRequest]
+      split
+      · rename_i u hu
+        apply ih _ _ hl
+        intro p hp
+        simp only [List.mem_append, List.mem_singleton] at hp
+        rcases hp with hp | rfl
+        · exact ho p hp
+        · simp [location, hl i u hu]
+      · exact ih _ _ hl ho
+
+/-- **Under every interleaving of any number of simultaneous requests on one shared redirect target, each
+request is answered with the Location computed from its own request alone.** -/
+theorem redirect_depends_only_on_request (t : RTarget) (reqs : Nat → URL) (schedule : List Step) :
+    ∀ p ∈ runPerRequest t reqs schedule [] [], p.2 = location t (reqs p.1) :=
+  runPerRequest_inv t reqs schedule [] [] (by simp) (by simp)
+
+/-- D08's witness on the pre-repair design: with the shared cell the schedule
+lookup₀ lookup₁ serve₀ serve₁ answers request 0 with request 1's path. -/
+example :
+    let t : RTarget := { url := { scheme := lit "https", host := lit "x.com$path" }, code := 301 }
+    let reqs : Nat → URL := fun i => if i = 0 then { host := lit "a.com", path := lit "/zero" } else { host := lit "a.com", path := lit "/one" }
+    runSharedCell t reqs [.lookup 0, .lookup 1, .serve 0, .serve 1] none [] = [(0, lit "https://x.com/one"), (1, lit "https://x.com/one")] ∧
+    runPerRequest t reqs [.lookup 0, .lookup 1, .serve 0, .serve 1] [] [] = [(0, lit "https://x.com/zero"), (1, lit "https://x.com/one")] := by decide
 
 end Fabio.Props.C13
